@@ -5,6 +5,7 @@ import (
 	"go/ast"
 	"go/token"
 	"go/types"
+	"regexp"
 	"sort"
 	"strings"
 )
@@ -59,6 +60,13 @@ func (f *Fn) canon(e ast.Expr, depth int) string {
 					return fmt.Sprintf("r%d", i)
 				}
 			}
+			for out, lvl := f.Outer, 1; out != nil; out, lvl = out.Outer, lvl+1 {
+				for i, p := range out.Params {
+					if p == o {
+						return fmt.Sprintf("outer%d.p%d", lvl, i)
+					}
+				}
+			}
 			if o.IsField() {
 				return "." + o.Name()
 			}
@@ -66,8 +74,11 @@ func (f *Fn) canon(e ast.Expr, depth int) string {
 				return pkgShort(o.Pkg()) + "." + o.Name()
 			}
 			if depth < 4 {
-				if def := f.singleDef(o); def != nil {
-					return f.canon(def, depth+1)
+				if def, idx := f.singleDefIdx(o); def != nil {
+					if idx < 0 {
+						return f.canon(def, depth+1)
+					}
+					return fmt.Sprintf("%s#%d", f.canon(def, depth+1), idx)
 				}
 			}
 			return "local(" + o.Name() + ")"
@@ -139,9 +150,30 @@ func (f *Fn) canon(e ast.Expr, depth int) string {
 // singleDef returns the defining expression of a local variable that is
 // assigned exactly once in the function (via := or var x = e with one value).
 func (f *Fn) singleDef(o *types.Var) ast.Expr {
+	d, idx := f.singleDefIdx(o)
+	if idx >= 0 {
+		return nil
+	}
+	return d
+}
+
+// singleDefIdx returns the unique defining expression of a local; idx >= 0
+// when the variable is the idx-th result of a multi-value call or map/assert.
+func (f *Fn) singleDefIdx(o *types.Var) (ast.Expr, int) {
+	if f.defCache == nil {
+		f.defCache = map[*types.Var]defInfo{}
+	}
+	if d, ok := f.defCache[o]; ok {
+		return d.e, d.idx
+	}
 	var def ast.Expr
+	defIdx := -1
 	count := 0
-	ast.Inspect(f.Body, func(n ast.Node) bool {
+	var scope ast.Node = f.Body
+	if f.Src != nil && f.Src.Decl.Body != nil {
+		scope = f.Src.Decl.Body
+	}
+	ast.Inspect(scope, func(n ast.Node) bool {
 		switch x := n.(type) {
 		case *ast.AssignStmt:
 			for i, l := range x.Lhs {
@@ -153,9 +185,12 @@ func (f *Fn) singleDef(o *types.Var) ast.Expr {
 					count++
 					if len(x.Lhs) == len(x.Rhs) && x.Tok == token.DEFINE {
 						def = x.Rhs[i]
+					} else if len(x.Rhs) == 1 && len(x.Lhs) > 1 && x.Tok == token.DEFINE {
+						def = x.Rhs[0]
+						defIdx = i
 					} else {
 						def = nil
-						count++ // multi-value or re-assignment: not inlinable
+						count++ // re-assignment: not inlinable
 					}
 				}
 			}
@@ -189,10 +224,18 @@ func (f *Fn) singleDef(o *types.Var) ast.Expr {
 		}
 		return true
 	})
+	// the walk must cover the outermost declared function so captured variables see all their assignments
 	if count == 1 {
-		return def
+		f.defCache[o] = defInfo{def, defIdx}
+		return def, defIdx
 	}
-	return nil
+	f.defCache[o] = defInfo{nil, -1}
+	return nil, -1
+}
+
+type defInfo struct {
+	e   ast.Expr
+	idx int
 }
 
 // Atom is a normalised atomic predicate with polarity: the condition holds
@@ -215,11 +258,19 @@ func (a Atom) Neg() Atom { return Atom{a.Key, !a.Pos} }
 // AtomOf normalises an atomic boolean expression.  Comparisons are reduced to
 // "a<b" and "a==b" with polarity; time.Time Before/After/Equal are comparisons.
 func (f *Fn) AtomOf(e ast.Expr) Atom {
+	a := f.atomOf(e)
+	if f.AtomRename != nil {
+		a.Key = f.AtomRename(a.Key)
+	}
+	return a
+}
+
+func (f *Fn) atomOf(e ast.Expr) Atom {
 	e = ast.Unparen(e)
 	switch x := e.(type) {
 	case *ast.UnaryExpr:
 		if x.Op == token.NOT {
-			return f.AtomOf(x.X).Neg()
+			return f.atomOf(x.X).Neg()
 		}
 	case *ast.BinaryExpr:
 		if tokIsCompare(x.Op) {
@@ -509,4 +560,26 @@ func Equivalent(a, b Formula, atoms map[string]bool) (bool, string) {
 		}
 	}
 	return true, ""
+}
+
+// Roles builds an atom renamer from (regexp, role) pairs: an atom key matching
+// a pattern is replaced by its role name, so predicate shapes can be stated
+// without spelling the operands.
+func Roles(pairs ...string) func(string) string {
+	type pr struct {
+		rx   *regexp.Regexp
+		role string
+	}
+	var ps []pr
+	for i := 0; i+1 < len(pairs); i += 2 {
+		ps = append(ps, pr{regexp.MustCompile(pairs[i]), pairs[i+1]})
+	}
+	return func(k string) string {
+		for _, p := range ps {
+			if p.rx.MatchString(k) {
+				return p.role
+			}
+		}
+		return k
+	}
 }
